@@ -223,8 +223,8 @@ func histBounds(tier string) map[string]interface{} {
 
 func init() {
 	register(&CheckSpec{
-		ID:      "C09",
-		Props:   []string{"C09"},
+		ID:    "C09",
+		Props: []string{"C09"},
 		Obligs: func(tier string) []Oblig {
 			obs := append(histObligs(tier, false), stepObligs(tier, false)...)
 			for _, pre := range []int{12, 13, 4, 5} {
@@ -361,7 +361,6 @@ func init() {
 		Outside: []string{"floating-point digit generation is concrete", "longer leaves", "formats outside the directive table"},
 	})
 }
-
 
 var c02RedactKinds = []int{103, 104, 105, 106, 110, 111, 112, 113}
 
@@ -646,7 +645,6 @@ func init() {
 		Outside: []string{"longer histories", "RedactableBytes aliasing (by design)"},
 	})
 }
-
 
 func init() {
 	register(&CheckSpec{
